@@ -104,11 +104,31 @@ theorem C14_combine_cancel (p : Nat) (ps : List Nat) : combineVal (p :: p :: ps)
 theorem C14_combine_single (p : Nat) : combineVal [p] = p := by
   simp [combineVal]
 
-/-- text level: 32-hex-digit components give a 32-hex-digit clear key whose nibbles are the value's
-    base-16 digits (for two components: the nibble-wise XOR) -/
-theorem C14_combine_text (parts : List (List Nat)) (h : ∀ p ∈ parts, p.length = 32 ∧ ∀ n ∈ p, n < 16) :
+theorem combineWidth_same (L : Nat) (hL : 32 ≤ L) (parts : List Text) (h : ∀ p ∈ parts, p.length = L) (hne : parts ≠ [] ∨ L = 32) :
+    combineWidth parts = L := by
+  have key : ∀ (ps : List Text) (w : Nat), (∀ p ∈ ps, p.length = L) → w ≤ L →
+      ps.foldl (fun w p => max w p.length) w = if ps = [] then w else L := by
+    intro ps
+    induction ps with
+    | nil => intro w _ _; rfl
+    | cons p ps ih =>
+      intro w hp hw
+      simp only [List.foldl_cons, hp p (by simp)]
+      rw [ih _ (fun q hq => hp q (by simp [hq])) (by omega)]
+      have : max w L = L := by omega
+      simp [this]
+  unfold combineWidth
+  rw [key parts 32 h hL]
+  rcases hne with hne | rfl
+  · simp [hne]
+  · split <;> rfl
+
+/-- text level: components of `L ≥ 32` hex digits each (32 for double-, 48 for triple-length keys) give
+    an `L`-hex-digit clear key whose nibbles are the value's base-16 digits -/
+theorem C14_combine_text_w (L : Nat) (hL : 32 ≤ L) (parts : List (List Nat))
+    (h : ∀ p ∈ parts, p.length = L ∧ ∀ n ∈ p, n < 16) (hne : parts ≠ [] ∨ L = 32) :
     combine (parts.map (·.map hexChar)) =
-      .ok ((toDigits 16 32 (combineVal (parts.map (fromDigits 16)))).map hexChar) := by
+      .ok ((toDigits 16 L (combineVal (parts.map (fromDigits 16)))).map hexChar) := by
   have hvals : Outcome.mapO intHex (parts.map (·.map hexChar)) = .ok (parts.map (fromDigits 16)) := by
     induction parts with
     | nil => rfl
@@ -118,19 +138,39 @@ theorem C14_combine_text (parts : List (List Nat)) (h : ∀ p ∈ parts, p.lengt
       have hi : intHex (p.map hexChar) = .ok (fromDigits 16 p) := by
         match p, hl, hp with
         | n :: ns, _, hp => exact intHex_of_parse hp
-      simp only [List.map_cons, Outcome.mapO, hi, Outcome.bind, ih (fun q hq => h q (by simp [hq]))]
-  have hlt : combineVal (parts.map (fromDigits 16)) < 16 ^ 32 := by
-    have : (16 : Nat) ^ 32 = 2 ^ 128 := by decide
-    rw [this]
+        | [], hl, _ => simp at hl; omega
+      simp only [List.map_cons, Outcome.mapO, hi, Outcome.bind]
+      have := ih (fun q hq => h q (by simp [hq]))
+      cases ps with
+      | nil => rfl
+      | cons q qs => rw [this (Or.inl (by simp))]
+  have hlt : combineVal (parts.map (fromDigits 16)) < 16 ^ L := by
+    have e : (16 : Nat) ^ L = 2 ^ (4 * L) := by
+      rw [show (16 : Nat) = 2 ^ 4 by decide, ← Nat.pow_mul]
+    rw [e]
     apply combineVal_lt
     intro v hv
     obtain ⟨p, hp, rfl⟩ := List.mem_map.mp hv
     obtain ⟨hl, hn⟩ := h p hp
     have := fromDigits_lt p hn
-    rw [hl] at this
-    have e : (16 : Nat) ^ 32 = 2 ^ 128 := by decide
-    rwa [e] at this
-  simp only [combine, hvals, Outcome.bind_ok, fmtHexW, hlt, if_true]
+    rw [hl, e] at this
+    exact this
+  have hw : combineWidth (parts.map (·.map hexChar)) = L := by
+    apply combineWidth_same L hL
+    · intro p hp
+      obtain ⟨q, hq, rfl⟩ := List.mem_map.mp hp
+      simp [(h q hq).1]
+    · rcases hne with hne | hne
+      · left; simpa using hne
+      · right; exact hne
+  simp only [combine, hvals, Outcome.bind_ok, hw, fmtHexW, hlt, if_true]
+
+/-- text level: 32-hex-digit components give a 32-hex-digit clear key whose nibbles are the value's
+    base-16 digits (for two components: the nibble-wise XOR) -/
+theorem C14_combine_text (parts : List (List Nat)) (h : ∀ p ∈ parts, p.length = 32 ∧ ∀ n ∈ p, n < 16) :
+    combine (parts.map (·.map hexChar)) =
+      .ok ((toDigits 16 32 (combineVal (parts.map (fromDigits 16)))).map hexChar) :=
+  C14_combine_text_w 32 (Nat.le_refl _) parts h (Or.inr rfl)
 
 /-- two components: the clear key's nibbles are the nibble-wise XOR of the components' nibbles -/
 theorem C14_combine_two (a b : List Nat) (ha : a.length = 32 ∧ ∀ n ∈ a, n < 16) (hb : b.length = 32 ∧ ∀ n ∈ b, n < 16) :
